@@ -169,8 +169,15 @@ def run(R):
     fr = ro.FutureBase.methods.get("__repr__")
     R.need(fr is not None, "anchor vanished: FutureBase.__repr__")
     rcfg = cfg_of(fr)
-    sets = [n for n in kit.store_nodes(fr, "_in_repr") if q.const_value(n.ast.value) is True]
-    clears = [n for n in kit.store_nodes(fr, "_in_repr") if q.const_value(n.ast.value) is False]
+    # the marker field, by role: the boolean self attribute that __repr__ both sets to True and to False
+    t_fields = set(t.attr for n in q.scope_nodes(fr.node) if isinstance(n, ast.Assign) and q.const_value(n.value) is True
+                   for t in n.targets if isinstance(t, ast.Attribute) and q.src(t.value) == "self")
+    f_fields = set(t.attr for n in q.scope_nodes(fr.node) if isinstance(n, ast.Assign) and q.const_value(n.value) is False
+                   for t in n.targets if isinstance(t, ast.Attribute) and q.src(t.value) == "self")
+    marker = sorted(t_fields & f_fields)
+    R.need(len(marker) == 1, "role: the recursion marker of FutureBase.__repr__ was not found (%s)" % marker)
+    sets = [n for n in kit.store_nodes(fr, marker[0]) if q.const_value(n.ast.value) is True]
+    clears = [n for n in kit.store_nodes(fr, marker[0]) if q.const_value(n.ast.value) is False]
     starts = []
     for s_ in sets:
         starts += [e.dst for e in rcfg.out_edges(s_.id, X)]
@@ -270,13 +277,19 @@ def run(R):
     fexc = [n for n, c in kit.call_sites(fe, lambda c: q.call_name(c) == "traceback.format_exception")]
     fonly = [n for n, c in kit.call_sites(fe, lambda c: q.call_name(c) == "traceback.format_exception_only")]
 
+    # names that stand for the explicit traceback argument: the parameter and locals initialised from it
+    tb_names = set([q.param_names(fe.node)[1] if len(q.param_names(fe.node)) > 1 else "tb"])
+    for n_ in q.scope_nodes(fe.node):
+        if isinstance(n_, ast.Assign) and isinstance(n_.value, ast.Name) and n_.value.id in tb_names:
+            tb_names |= set(t.id for t in n_.targets if isinstance(t, ast.Name))
+
     def has_tb(nd):
         if nd.kind != "test":
             return None
         if isinstance(nd.ast, ast.Call) and q.call_name(nd.ast) == "hasattr" and [q.src(a) for a in nd.ast.args] == [ep0, "'_traceback'"]:
             return "T"
         k, s_, pos = q.atom_test(nd.ast)
-        if k == "isnone" and s_ == "tb":
+        if k == "isnone" and s_ in tb_names:
             return "F" if pos else "T"
         return None
 
@@ -304,9 +317,9 @@ def run(R):
         if isinstance(nd.ast, ast.Call) and q.call_name(nd.ast) == "hasattr" and [q.src(a) for a in nd.ast.args] == [ep0, "'_traceback'"]:
             return "T"
         k_, s_, pos_ = q.atom_test(nd.ast)
-        if k_ == "truth" and s_ == tbp:
+        if k_ == "truth" and s_ in tb_names:
             return "F" if pos_ else "T"
-        if k_ == "isnone" and s_ == tbp:
+        if k_ == "isnone" and s_ in tb_names:
             return "T" if pos_ else "F"
         return None
     for n in fcfg2.nodes:
@@ -315,7 +328,7 @@ def run(R):
         for x in ast.walk(n.ast):
             if isinstance(x, ast.Attribute) and x.attr == "_traceback" and q.src(x.value) == ep0 and isinstance(x.ctx, ast.Load):
                 par = getattr(x, "_parent", None)
-                fallback = isinstance(par, ast.BoolOp) and isinstance(par.op, ast.Or) and par.values[-1] is x and all(q.src(v) == tbp for v in par.values[:-1])
+                fallback = isinstance(par, ast.BoolOp) and isinstance(par.op, ast.Or) and par.values[-1] is x and all(q.src(v) in tb_names for v in par.values[:-1])
                 if fallback:
                     okx = kit.path_avoiding_guard(fcfg2, [n], has_tb, N) is None
                 else:
@@ -325,8 +338,11 @@ def run(R):
                         "%s._traceback is read although only an explicit tb may have been given (`%s`): format_error(e, tb=...) raises AttributeError for an "
                         "exception that never passed through asynq" % (ep0, q.src(n.ast)[:60]))
     # every path to the end has tb_list defined (the third kind gets an empty list)
-    tl_defs = [n for n in fcfg2.nodes if n.kind == "stmt" and isinstance(n.ast, ast.Assign) and "tb_list" in q.names_stored(n.ast)]
-    uses = [n for n in fcfg2.nodes if n.kind == "stmt" and "tb_list" in q.names_loaded(n.ast) and n not in tl_defs]
+    # (the list, by role: the local that is joined into the text)
+    joined = [c.args[0].id for c in q.calls(fe.node) if q.attr_call(c)[1] == "join" and len(c.args) == 1 and isinstance(c.args[0], ast.Name)]
+    lines_var = joined[0] if joined else "tb_list"
+    tl_defs = [n for n in fcfg2.nodes if n.kind == "stmt" and isinstance(n.ast, ast.Assign) and lines_var in q.names_stored(n.ast)]
+    uses = [n for n in fcfg2.nodes if n.kind == "stmt" and lines_var in q.names_loaded(n.ast) and n not in tl_defs]
     p = fcfg2.find_path([fcfg2.entry], uses, N, cut_nodes=tl_defs)
     R.check(p is None and uses, "C18.FORMAT", fe.qualname + ":total", R.site(fe),
             "the list of formatted lines is defined on every path (an object that is neither is formatted to an empty text)",
